@@ -51,6 +51,20 @@ structure FwdPkg where
   resolves : List Nat
 deriving DecidableEq, Repr, Inhabited
 
+/-- a per-commitment secret of the PEER's chain, symbolically: the producer's secret of a height,
+    or anything else.  `pub` (secret ↦ commitment point) is injective, so a commitment point is
+    represented by the secret that opens it. -/
+inductive Sec where
+  | ofHeight (h : Nat)
+  | junk (k : Nat)
+deriving DecidableEq, Repr, Inhabited
+
+/-- a received revoke_and_ack: the revealed secret and the next commitment point. -/
+structure RevIn where
+  secret : Sec
+  next : Sec
+deriving DecidableEq, Repr, Inhabited
+
 structure Disk where
   lc : DCommit                                  -- LocalCommitment
   rc : DCommit                                  -- RemoteCommitment
@@ -58,6 +72,8 @@ structure Disk where
   ua : Option (List Entry) := none              -- unsignedAckedUpdatesKey (none: key absent)
   rul : Option (List Entry) := none             -- remoteUnsignedLocalUpdatesKey
   lwr : Bool := false                           -- lastWasRevokeKey
+  rcur : Sec := .ofHeight 0                     -- RemoteCurrentRevocation (point of the remote tail)
+  rnext : Sec := .ofHeight 1                    -- RemoteNextRevocation
   stored : Nat := 0                             -- number of peer secrets in the revocation store
   revLog : List Nat := []                       -- heights in the revocation log
   fwd : List FwdPkg := []                       -- forwarding packages
@@ -306,21 +322,45 @@ def fwdPkgOf (n : Node) : FwdPkg :=
     resolves := (n.logR.entries.filter (fun e => e.isRes && e.rmvR != 0 && e.rmvL != 0 && e.rmvR == remoteTail &&
               decide (e.rmvL ≤ localTail))).map Entry.parent }
 
-/-- `ReceiveRevocation` incl. `AdvanceCommitChainTail`.  The remote-unsigned-local updates are
-    always written; the unsigned-acked updates are filtered if the key exists (it is created by the
+/-- the part of `ReceiveRevocation` after the secret has been accepted: rotate the peer's
+    commitment points and `AdvanceCommitChainTail`.  The remote-unsigned-local updates are always
+    written; the unsigned-acked updates are filtered if the key exists (it is created by the
     node's first `UpdateCommitment`). -/
-def St.receiveRevocation (s : St) : Err × St :=
+def St.advance (s : St) (next : Sec) : Err × St :=
   match s.mem.chainR.pend with
   | [] => (.noPending, s)
   | _ :: _ =>
     let newRc := match s.disk.pend with | some p => p.1 | none => s.disk.rc
     (.ok, { s with mem := s.mem.receiveRevocation.2,
                    disk := { s.disk with rc := newRc, pend := none, stored := s.disk.stored + 1,
+                                         rcur := s.disk.rnext, rnext := next,
                                          revLog := s.disk.revLog ++ [s.disk.rc.cm.height],
                                          fwd := s.disk.fwd ++ [fwdPkgOf s.mem],
                                          rul := some (unsignedLocal s.mem),
                                          ua := s.disk.ua.map (fun ua =>
                                            ua.filter (fun u => decide (newRc.cm.theirMsg ≤ u.logIndex))) } })
+
+/-- `ReceiveRevocation` of the honest peer's message (secret of the remote tail height, point of
+    that height + 2). -/
+def St.receiveRevocation (s : St) : Err × St := s.advance (.ofHeight (s.disk.rc.cm.height + 2))
+
+inductive RevRes where
+  | storeReject            -- RevocationStore.AddNextEntry refused the secret
+  | keyMismatch            -- "revocation key mismatch": pub(secret) ≠ RemoteCurrentRevocation
+  | done (e : Err)         -- secret accepted; outcome of the rest of ReceiveRevocation
+deriving DecidableEq, Repr, Inhabited
+
+def RevRes.toString : RevRes → String
+  | .storeReject => "storeReject" | .keyMismatch => "keyMismatch" | .done e => e.toString
+
+/-- `ReceiveRevocation(msg)` for an ARBITRARY message.  `storeAccepts` is the verdict of
+    `RevocationStore.AddNextEntry` (an oracle here: at store indexes without trailing zeros — every
+    even remote height — the real store accepts any 32 bytes); then the commitment-point check
+    `pub(msg.secret) = RemoteCurrentRevocation`, a symbolic equality. -/
+def St.receiveRevocationMsg (s : St) (storeAccepts : Bool) (m : RevIn) : RevRes × St :=
+  if !storeAccepts then (.storeReject, s)
+  else if m.secret != s.disk.rcur then (.keyMismatch, s)
+  else let r := s.advance m.next; (.done r.1, r.2)
 
 /-! ## crash / restart -/
 
@@ -347,6 +387,7 @@ inductive Ev where
   | emit            -- RevokeCurrentCommitment returns
   | crash
   | syncRevoke
+  | recvRevMsg (storeAccepts : Bool) (m : RevIn)   -- ReceiveRevocation of any message, any store verdict
 deriving Repr
 
 def St.apiStep (s : St) (o : Op) : Err × St :=
@@ -364,6 +405,9 @@ def St.step (s : St) : Ev → St
   | .emit => s.emit
   | .crash => match s.crash with | .ok s' => s' | .error _ => s
   | .syncRevoke => s.syncRevoke
+  | .recvRevMsg a m => match s.staged with
+    | some _ => s
+    | none => (s.receiveRevocationMsg a m).2
 
 def St.run (s : St) (evs : List Ev) : St := evs.foldl St.step s
 
